@@ -22,6 +22,9 @@ pub enum Flavor {
     ExAllow,
     ExBlock,
     ExVotes,
+    /// harness RWA token (library `RWA::*`) with permissive compliance / identity mocks; only the holder-initiated
+    /// entry points (transfer, transfer_from, approve) and the operator's mint are driven through this driver
+    Rwa,
 }
 impl Flavor {
     pub fn name(self) -> &'static str {
@@ -35,13 +38,14 @@ impl Flavor {
             Flavor::ExAllow => "ex-allowlist",
             Flavor::ExBlock => "ex-blocklist",
             Flavor::ExVotes => "ex-votes",
+            Flavor::Rwa => "rwa",
         }
     }
     pub fn has_mint(self) -> bool {
         !matches!(self, Flavor::ExAllow | Flavor::ExBlock)
     }
     pub fn has_burn(self) -> bool {
-        !matches!(self, Flavor::ExCapped | Flavor::ExBlock | Flavor::ExVotes)
+        !matches!(self, Flavor::ExCapped | Flavor::ExBlock | Flavor::ExVotes | Flavor::Rwa)
     }
     pub fn has_list(self) -> bool {
         matches!(self, Flavor::Allow | Flavor::Block | Flavor::ExAllow | Flavor::ExBlock)
@@ -280,6 +284,7 @@ impl Tok {
                 (s(&e, "B"), s(&e, "B"), admin.clone(), manager.clone(), EX_INITIAL_SUPPLY),
             ),
             Flavor::ExVotes => e.register(ex::fungible_votes::contract::ExampleContract, (admin.clone(),)),
+            Flavor::Rwa => super::c04::rwa_token_setup(&e, &admin, false).expect("rwa set-up").token,
         };
         // the admin holds the constructor-minted supply in three examples: make it a named account
         if matches!(flavor, Flavor::ExPausable | Flavor::ExAllow | Flavor::ExBlock) {
@@ -579,8 +584,13 @@ impl Tok {
                 let ti = self.acct_idx(*to);
                 let a = self.resolve_amt(amt, d, ti, None);
                 let req = if f.mint_needs_auth() { vec![self.admin.clone()] } else { vec![] };
+                let mut margs: Vec<Val> = vec![self.accts[ti].clone().into_val(e), a.into_val(e)];
+                if f == Flavor::Rwa {
+                    // RWAToken::mint(to, amount, operator)
+                    margs.push(self.admin.clone().into_val(e));
+                }
                 let mut r = blank(
-                    Call { func: "mint", args: vec![self.accts[ti].clone().into_val(e), a.into_val(e)], required: req, amount_arg: Some(1) },
+                    Call { func: "mint", args: margs, required: req, amount_arg: Some(1) },
                     auth,
                     Kind::Mint,
                     a,
